@@ -740,6 +740,14 @@ def make_monitors(ctx, watch, real):
             self._construct_mol2 = np.array(mol2, dtype=float, copy=True)
             watch.fixed = self._fixed
             watch.restr = self._restr
+            given = getattr(watch, "given_restr", None)
+            if given is not None and watch.phase == "init" and sorted(given) != sorted(self._restr):
+                # "the overlap measure" of the search is the measure of the restraint list the search was GIVEN (every pair
+                # with its multiplicity: a pair listed twice weighs twice); a search that builds its measure from another
+                # list judges every proposal against another function
+                ctx.violate("C09", "measure-built-from-other-restraints",
+                            f"the search was given the restraints {given[:8]}{'...' if len(given) > 8 else ''} and builds its "
+                            f"measure from {self._restr[:8]}{'...' if len(self._restr) > 8 else ''}")
             ctx.counters["chi2_path:" + ("none" if not self._restr else
                                          ("all" if len({r[0] for r in self._restr}) == len(self._fixed) else "some"))] += 1
 
@@ -1096,6 +1104,10 @@ def execute(trace, ctx):
                 if mob_now.shape != np.shape(mol2_positions) or not np.array_equal(mob_now, np.asarray(mol2_positions, dtype=float)):
                     ctx.violate("C09", "search-not-started-from-mobile", "the search was not started from the configuration of the "
                                                                          "molecule that moves")
+            try:
+                watch.given_restr = [tuple(int(x) for x in r_) for r_ in restriction]
+            except Exception:
+                watch.given_restr = None
             info["args"] = (np.array(mol1_positions, copy=True), np.array(mol2_positions, copy=True), int(n_steps),
                             list(restriction), tuple(sim_type), float(displacement_module), float(sigma_scale))
             out = real_min(mol1_positions, mol2_positions, mol2_com, sigma_scale, n_steps, restriction, mol2_bonds_info,
